@@ -179,6 +179,14 @@ class SuperProxy:
         raise Raised('AttributeError', None)
 
 
+class CallableObj(Obj):
+    """stand-in for an instance of a repository class that defines __call__ (a callback object): calling it interprets that method"""
+
+    def __call__(self, *args, **kwargs):
+        it = self.__dict__['_interp']
+        return it.call_function(it.methods[self.kind]['__call__'], [self] + list(args), dict(kwargs), Env())
+
+
 class Closure:
     def __init__(self, fn, env, interp):
         self.fn, self.env, self.interp = fn, env, interp
@@ -538,7 +546,12 @@ class Interp:
             raise _Break()
         elif isinstance(s, ast.Continue):
             raise _Continue()
-        elif isinstance(s, (ast.Import, ast.ImportFrom)):
+        elif isinstance(s, ast.ImportFrom):
+            # a function-local import of a class under another name: the local name stands for that class
+            for a in s.names:
+                if a.asname and a.asname != a.name and a.name[:1].isupper():
+                    env.set(a.asname, ClassRef(a.name))
+        elif isinstance(s, ast.Import):
             pass
         else:
             raise AnalysisError(f'interpreter: unmodelled statement `{norm(s)[:80]}` (line {s.lineno})')
@@ -821,14 +834,20 @@ class Interp:
         return False
 
     def _ev_in_module(self, expr):
+        # a class-level object exists once: mutable ones (a dict used as a cache by the methods) keep their identity within one interpreter
+        if id(expr) in self._global_values:
+            return self._global_values[id(expr)]
         saved = self.module
         mod = self.fn_module.get(id(expr))
         if mod is not None:
             self.module = mod
         try:
-            return self.ev(expr, Env())
+            v = self.ev(expr, Env())
         finally:
             self.module = saved
+        if isinstance(v, (list, dict, set)):
+            self._global_values[id(expr)] = v
+        return v
 
     def _global(self, name, module=None, depth=0):
         """definition of a module-level name: ('func', FunctionDef, module) / ('value', expr, module) / None; follows `from mindsdb_sql... import name`"""
@@ -1062,13 +1081,17 @@ class Interp:
                     o.attrs[f_] = self._ev_in_module(dflt)
             self.trace.append((e.func.id, args, kwargs))
             return o
-        if isinstance(e.func, ast.Name) and e.func.id[:1].isupper() and isinstance(self.methods.get(e.func.id, {}).get('__init__'), ast.FunctionDef):
+        if isinstance(e.func, ast.Name) and e.func.id.lstrip('_')[:1].isupper() and isinstance(self.methods.get(e.func.id, {}).get('__init__'), ast.FunctionDef):
             # constructor of a class whose source is known: run its __init__ on an empty stand-in
-            o = Obj(e.func.id)
+            if isinstance(self.methods[e.func.id].get('__call__'), ast.FunctionDef):
+                o = CallableObj(e.func.id)
+                o.__dict__['_interp'] = self
+            else:
+                o = Obj(e.func.id)
             self.trace.append((e.func.id, args, kwargs))
             self.call_function(self.methods[e.func.id]['__init__'], [o] + list(args), dict(kwargs), Env())
             return o
-        if isinstance(e.func, ast.Name) and e.func.id[:1].isupper():
+        if isinstance(e.func, ast.Name) and e.func.id.lstrip('_')[:1].isupper():
             # constructor of a repository class: a stand-in with the keyword arguments as attributes
             self.trace.append((e.func.id, args, kwargs))
             o = Obj(e.func.id, **kwargs)
